@@ -244,7 +244,8 @@ def interleave_plain(case):
 # ----------------------------------------------------------------------------- input layout
 
 
-def gen_input(rng, paired, fastq, containers=("",), p_interleaved=0.3, p_multimember=0.3, p_interleaved_fasta=0.0):
+def gen_input(rng, paired, fastq, containers=("",), p_interleaved=0.3, p_multimember=0.3, p_interleaved_fasta=0.0,
+              p_comments_two_files=0.0):
     ext = rng.choice([".fastq", ".fq"] if fastq else [".fasta", ".fa"])
     if rng.random() < 0.1:
         ext = ""  # no extension: xopen/dnaio must detect by content
@@ -259,7 +260,11 @@ def gen_input(rng, paired, fastq, containers=("",), p_interleaved=0.3, p_multime
         c = rng.choice(containers)
         conts.append(c)
         members.append(rng.randint(2, 4) if c and rng.random() < p_multimember else 1)
-    return {"layout": layout, "ext": ext, "containers": conts, "members": members}
+    # FASTA files may start with '#' comment lines (accepted by dnaio and by cutadapt's detection)
+    comments = rng.randint(1, 2) if (not fastq and rng.random() < 0.15) else 0
+    if comments and layout == "two" and rng.random() >= p_comments_two_files:
+        comments = 0  # two-file paired FASTA with comment lines fails with --cores>1 (known finding KF-C06-3)
+    return {"layout": layout, "ext": ext, "containers": conts, "members": members, "comments": comments}
 
 
 def input_paths(case):
@@ -283,7 +288,10 @@ def materialize(case, rng_for_members=None):
     else:
         plains = [records_plain(case)[0]]
     files = {}
+    ncomm = inp.get("comments", 0) if case["fmt"] == "fasta" else 0
     for i, (p, plain) in enumerate(zip(paths, plains)):
+        if ncomm:
+            plain = b"".join(b"# comment line %d\n" % k for k in range(ncomm)) + plain
         r = random.Random(case.get("member_seed", 0) * 31 + i)
         files[p] = fmt.compress(inp["containers"][i], plain, rng=r, members=inp["members"][i])
     return files
@@ -358,6 +366,7 @@ def default_profile():
         p_big=0.01,
         p_huge=0.004,
         p_interleaved_redirect=0.3,
+        p_comments_two_files=0.0,  # only the check that owns KF-C06-3 generates it
         p_mixed_pair=0.0,  # -o x.fastq -p y.fasta: only the check that owns KF-C06-2 generates it
         upper_only=False,  # reads over ACGTN only
     )
@@ -638,7 +647,8 @@ def gen_case(rng, profile=None):
     if paired and rng.random() < 0.3:
         r2max = rng.choice([8, 15, 120])  # very different R1/R2 lengths: chunk limits differ
     records = gen_records(rng, n, paired, fastq, ad1, ad2, P["maxlen"], r2max, P["upper_only"], times, revcomp)
-    inp = gen_input(rng, paired, fastq, P["in_containers"], p_interleaved_fasta=P["p_interleaved_fasta"])
+    inp = gen_input(rng, paired, fastq, P["in_containers"], p_interleaved_fasta=P["p_interleaved_fasta"],
+                    p_comments_two_files=P["p_comments_two_files"])
     if inp["layout"] == "interleaved" or interleaved_out:
         outs.append(["--interleaved"])
     if inp["layout"] == "interleaved" and paired and not interleaved_out and demux != "combinatorial":
